@@ -804,17 +804,17 @@ package twig
 //@ define endTok(S, P, A, E) ite(S[P + 1] == 123, ite(dashCloser(S, A, E), TOKEN_VAR_END_TRIM, TOKEN_VAR_END), ite(S[P + 1] == 37, ite(dashCloser(S, A, E), TOKEN_BLOCK_END_TRIM, TOKEN_BLOCK_END), TOKEN_COMMENT_END))
 //@ func (*ZeroAllocTokenizer).TokenizeOptimized props: C04 C14 C05
 //@   loop 1 invariant 0 <= pos && pos <= len(t.source) && t.source == old(t.source) && (pos == 0 || afterCloser(t.source, pos) || afterOpener(t.source, pos))
-//@   atcall (*ZeroAllocTokenizer).AddToken#1 a1 == TOKEN_TEXT && pos < len(t.source) && a2 == substr(t.source, pos, len(t.source)) && noOpen(t.source, pos, len(t.source))
+//@   atcall[C04,C14] (*ZeroAllocTokenizer).AddToken#1 a1 == TOKEN_TEXT && pos < len(t.source) && a2 == substr(t.source, pos, len(t.source)) && noOpen(t.source, pos, len(t.source))
 // (the branch for an opener preceded by a backslash: the text tokens it emits are not the source at
 // the scan position, the backslash is dropped and the opener becomes text: recorded finding)
 //@   atcall[C04] (*ZeroAllocTokenizer).AddToken#3 a1 == TOKEN_TEXT && a2 == substr(t.source, pos, pos + len(a2))
-//@   atcall (*ZeroAllocTokenizer).AddToken#4 a1 == TOKEN_TEXT && pos < tagLoc.Position && a2 == substr(t.source, pos, tagLoc.Position) && openAt(t.source, tagLoc.Position) && noOpen(t.source, pos, tagLoc.Position)
-//@   atcall (*ZeroAllocTokenizer).AddToken#5 a2 == "" && openAt(t.source, tagLoc.Position) && noOpen(t.source, pos, tagLoc.Position) && a1 == startTok(t.source, tagLoc.Position)
-//@   atcall (*ZeroAllocTokenizer).AddToken#6 a1 == TOKEN_TEXT && t.source[tagLoc.Position + 1] == 35 && a2 == substr(t.source, tagLoc.Position + 2, tagEndPos)
-//@   atcall (*ZeroAllocTokenizer).AddToken#8 a2 == "" && endLength == 2 && tagContentStart == tagLoc.Position + ite(t.source[tagLoc.Position + 1] != 35 && dashAt(t.source, tagLoc.Position + 2), 3, 2)
-//@   atcall (*ZeroAllocTokenizer).AddToken#8 closeAt(t.source, tagEndPos, ite(t.source[tagLoc.Position + 1] == 123, 125, t.source[tagLoc.Position + 1])) && noClose(t.source, tagContentStart, tagEndPos, ite(t.source[tagLoc.Position + 1] == 123, 125, t.source[tagLoc.Position + 1]))
-//@   atcall (*ZeroAllocTokenizer).AddToken#8 a1 == endTok(t.source, tagLoc.Position, tagContentStart, tagEndPos)
-//@   atcall (*ZeroAllocTokenizer).AddToken#9 a1 == TOKEN_EOF && a2 == ""
+//@   atcall[C04,C14] (*ZeroAllocTokenizer).AddToken#4 a1 == TOKEN_TEXT && pos < tagLoc.Position && a2 == substr(t.source, pos, tagLoc.Position) && openAt(t.source, tagLoc.Position) && noOpen(t.source, pos, tagLoc.Position)
+//@   atcall[C04,C14] (*ZeroAllocTokenizer).AddToken#5 a2 == "" && openAt(t.source, tagLoc.Position) && noOpen(t.source, pos, tagLoc.Position) && a1 == startTok(t.source, tagLoc.Position)
+//@   atcall[C04,C14] (*ZeroAllocTokenizer).AddToken#6 a1 == TOKEN_TEXT && t.source[tagLoc.Position + 1] == 35 && a2 == substr(t.source, tagLoc.Position + 2, tagEndPos)
+//@   atcall[C04,C14] (*ZeroAllocTokenizer).AddToken#8 a2 == "" && endLength == 2 && tagContentStart == tagLoc.Position + ite(t.source[tagLoc.Position + 1] != 35 && dashAt(t.source, tagLoc.Position + 2), 3, 2)
+//@   atcall[C04,C14] (*ZeroAllocTokenizer).AddToken#8 closeAt(t.source, tagEndPos, ite(t.source[tagLoc.Position + 1] == 123, 125, t.source[tagLoc.Position + 1])) && noClose(t.source, tagContentStart, tagEndPos, ite(t.source[tagLoc.Position + 1] == 123, 125, t.source[tagLoc.Position + 1]))
+//@   atcall[C04,C14] (*ZeroAllocTokenizer).AddToken#8 a1 == endTok(t.source, tagLoc.Position, tagContentStart, tagEndPos)
+//@   atcall[C04,C14] (*ZeroAllocTokenizer).AddToken#9 a1 == TOKEN_EOF && a2 == ""
 // TokenizeHtmlPreserving (templates below 4096 bytes) searches the five opener patterns with
 // strings.Index and keeps the leftmost (at equal positions the longer "{{-" / "{%-", which it tries
 // first). It is checked against the same step specification as TokenizeOptimized.
@@ -840,16 +840,16 @@ package twig
 //@   loop 2 invariant (i >= 5 ==> (forall q int :: posT() <= q && (nextTagPos == 0 - 1 || q < nextTagPos) ==> !m4(srcT(), q)))
 //@   loop 2 invariant nextTagPos == 0 - 1 || (posT() < nextTagPos && ((i >= 1 && m0(srcT(), nextTagPos) && tagType == TOKEN_VAR_START_TRIM && tagLength == 3) || (i >= 2 && m1(srcT(), nextTagPos) && !m0(srcT(), nextTagPos) && tagType == TOKEN_VAR_START && tagLength == 2) || (i >= 3 && m2(srcT(), nextTagPos) && tagType == TOKEN_BLOCK_START_TRIM && tagLength == 3) || (i >= 4 && m3(srcT(), nextTagPos) && !m2(srcT(), nextTagPos) && tagType == TOKEN_BLOCK_START && tagLength == 2) || (i >= 5 && m4(srcT(), nextTagPos) && tagType == TOKEN_COMMENT_START && tagLength == 2)))
 //@   atcall[C04] (*ZeroAllocTokenizer).AddToken#2 a1 == TOKEN_TEXT && a2 == substr(srcT(), posT(), posT() + len(a2))
-//@   atcall (*ZeroAllocTokenizer).AddToken#3 a1 == TOKEN_TEXT && a2 == substr(srcT(), posT(), len(srcT())) && noOpen(srcT(), posT(), len(srcT()))
-//@   atcall (*ZeroAllocTokenizer).AddToken#4 a1 == TOKEN_TEXT && posT() < nextTagPos && a2 == substr(srcT(), posT(), nextTagPos) && openAt(srcT(), nextTagPos) && noOpen(srcT(), posT(), nextTagPos)
-//@   atcall (*ZeroAllocTokenizer).AddToken#5 a2 == "" && openAt(srcT(), nextTagPos) && noOpen(srcT(), posT(), nextTagPos) && a1 == startTok(srcT(), nextTagPos) && tagLength == ite(srcT()[nextTagPos + 1] != 35 && dashAt(srcT(), nextTagPos + 2), 3, 2)
-//@   atcall (*ZeroAllocTokenizer).AddToken#6 a1 == TOKEN_TEXT && tagType == TOKEN_COMMENT_START && a2 == substr(srcT(), posT(), posT() + nth(endPos, 2))
-//@   atcall (*ZeroAllocTokenizer).AddToken#8 tagType == TOKEN_COMMENT_START ==> a1 == TOKEN_COMMENT_END && endTagLength == 2 && closeAt(srcT(), posT() + nth(endPos, 2), 35) && noClose(srcT(), posT(), posT() + nth(endPos, 2), 35)
-//@   atcall (*ZeroAllocTokenizer).AddToken#8 (tagType == TOKEN_VAR_START || tagType == TOKEN_VAR_START_TRIM) && endTagLength == 2 ==> a1 == TOKEN_VAR_END && closeAt(srcT(), posT() + nth(endPos, 2), 125) && noClose(srcT(), posT(), posT() + nth(endPos, 2), 125) && !dashCloser(srcT(), posT(), posT() + nth(endPos, 2))
-//@   atcall (*ZeroAllocTokenizer).AddToken#8 (tagType == TOKEN_VAR_START || tagType == TOKEN_VAR_START_TRIM) && endTagLength != 2 ==> a1 == TOKEN_VAR_END_TRIM && endTagLength == 3 && srcT()[posT() + nth(endPos, 2)] == 45 && closeAt(srcT(), posT() + nth(endPos, 2) + 1, 125) && noClose(srcT(), posT(), posT() + nth(endPos, 2) + 1, 125)
-//@   atcall (*ZeroAllocTokenizer).AddToken#8 (tagType == TOKEN_BLOCK_START || tagType == TOKEN_BLOCK_START_TRIM) && endTagLength == 2 ==> a1 == TOKEN_BLOCK_END && closeAt(srcT(), posT() + nth(endPos, 2), 37) && noClose(srcT(), posT(), posT() + nth(endPos, 2), 37) && !dashCloser(srcT(), posT(), posT() + nth(endPos, 2))
-//@   atcall (*ZeroAllocTokenizer).AddToken#8 (tagType == TOKEN_BLOCK_START || tagType == TOKEN_BLOCK_START_TRIM) && endTagLength != 2 ==> a1 == TOKEN_BLOCK_END_TRIM && endTagLength == 3 && srcT()[posT() + nth(endPos, 2)] == 45 && closeAt(srcT(), posT() + nth(endPos, 2) + 1, 37) && noClose(srcT(), posT(), posT() + nth(endPos, 2) + 1, 37)
-//@   atcall (*ZeroAllocTokenizer).AddToken#9 a1 == TOKEN_EOF && a2 == ""
+//@   atcall[C04,C14] (*ZeroAllocTokenizer).AddToken#3 a1 == TOKEN_TEXT && a2 == substr(srcT(), posT(), len(srcT())) && noOpen(srcT(), posT(), len(srcT()))
+//@   atcall[C04,C14] (*ZeroAllocTokenizer).AddToken#4 a1 == TOKEN_TEXT && posT() < nextTagPos && a2 == substr(srcT(), posT(), nextTagPos) && openAt(srcT(), nextTagPos) && noOpen(srcT(), posT(), nextTagPos)
+//@   atcall[C04,C14] (*ZeroAllocTokenizer).AddToken#5 a2 == "" && openAt(srcT(), nextTagPos) && noOpen(srcT(), posT(), nextTagPos) && a1 == startTok(srcT(), nextTagPos) && tagLength == ite(srcT()[nextTagPos + 1] != 35 && dashAt(srcT(), nextTagPos + 2), 3, 2)
+//@   atcall[C04,C14] (*ZeroAllocTokenizer).AddToken#6 a1 == TOKEN_TEXT && tagType == TOKEN_COMMENT_START && a2 == substr(srcT(), posT(), posT() + nth(endPos, 2))
+//@   atcall[C04,C14] (*ZeroAllocTokenizer).AddToken#8 tagType == TOKEN_COMMENT_START ==> a1 == TOKEN_COMMENT_END && endTagLength == 2 && closeAt(srcT(), posT() + nth(endPos, 2), 35) && noClose(srcT(), posT(), posT() + nth(endPos, 2), 35)
+//@   atcall[C04,C14] (*ZeroAllocTokenizer).AddToken#8 (tagType == TOKEN_VAR_START || tagType == TOKEN_VAR_START_TRIM) && endTagLength == 2 ==> a1 == TOKEN_VAR_END && closeAt(srcT(), posT() + nth(endPos, 2), 125) && noClose(srcT(), posT(), posT() + nth(endPos, 2), 125) && !dashCloser(srcT(), posT(), posT() + nth(endPos, 2))
+//@   atcall[C04,C14] (*ZeroAllocTokenizer).AddToken#8 (tagType == TOKEN_VAR_START || tagType == TOKEN_VAR_START_TRIM) && endTagLength != 2 ==> a1 == TOKEN_VAR_END_TRIM && endTagLength == 3 && srcT()[posT() + nth(endPos, 2)] == 45 && closeAt(srcT(), posT() + nth(endPos, 2) + 1, 125) && noClose(srcT(), posT(), posT() + nth(endPos, 2) + 1, 125)
+//@   atcall[C04,C14] (*ZeroAllocTokenizer).AddToken#8 (tagType == TOKEN_BLOCK_START || tagType == TOKEN_BLOCK_START_TRIM) && endTagLength == 2 ==> a1 == TOKEN_BLOCK_END && closeAt(srcT(), posT() + nth(endPos, 2), 37) && noClose(srcT(), posT(), posT() + nth(endPos, 2), 37) && !dashCloser(srcT(), posT(), posT() + nth(endPos, 2))
+//@   atcall[C04,C14] (*ZeroAllocTokenizer).AddToken#8 (tagType == TOKEN_BLOCK_START || tagType == TOKEN_BLOCK_START_TRIM) && endTagLength != 2 ==> a1 == TOKEN_BLOCK_END_TRIM && endTagLength == 3 && srcT()[posT() + nth(endPos, 2)] == 45 && closeAt(srcT(), posT() + nth(endPos, 2) + 1, 37) && noClose(srcT(), posT(), posT() + nth(endPos, 2) + 1, 37)
+//@   atcall[C04,C14] (*ZeroAllocTokenizer).AddToken#9 a1 == TOKEN_EOF && a2 == ""
 // (TokenizeExpression borrows source/position/line for the expression text and puts them back)
 //@ func (*ZeroAllocTokenizer).TokenizeExpression props: C05
 //@   loop * invariant t.source == expr && 0 <= t.position && t.position <= len(t.source) && savedSource == old(t.source) && savedPosition == old(t.position) && savedLine == old(t.line)
